@@ -143,6 +143,7 @@ class Server(object):
                         self.on_request(entry, 'mid-body')
                     conn.sendall(body_bytes[half:])
                 entry['served'] = True
+                entry['t_done'] = time.monotonic()
                 if self.on_request:
                     self.on_request(entry, 'after-response')
                 if resp.get('close'):
